@@ -126,29 +126,53 @@ pub fn guard_sync<T>(f: impl FnOnce() -> T) -> Guarded<T> {
 }
 
 // ---------------------------------------------------------------------------------------------
-// Watchdog: each worker publishes what it is about to execute; a background thread exits the
-// process with a VIOLATION line when one call exceeds the wall limit (pure CPU loop backstop).
+// Watchdog: each worker publishes what it is about to execute and bumps an epoch at every
+// public call; a background thread samples the worker's *thread CPU time* (/proc/self/task/<tid>/
+// stat) and exits the process with a VIOLATION line when one call has consumed more than the
+// limit of CPU seconds without returning (pure CPU loop backstop). CPU time, not wall-clock time,
+// so that a loaded machine cannot raise a false alarm.
 
 #[derive(Default)]
 pub struct Slot {
     pub active: bool,
-    pub since: Option<Instant>,
     pub prop: String,
     pub label: String,
     /// replay JSON to persist if this call never returns
     pub replay_json: String,
+    pub tid: u64,
 }
 
 pub struct Watchdog {
     pub slots: Vec<Mutex<Slot>>,
+    pub epochs: Vec<AtomicU64>,
     pub limit_s: AtomicU64,
     pub stop: AtomicBool,
+}
+
+fn thread_id() -> u64 {
+    std::fs::read_link("/proc/thread-self")
+        .ok()
+        .and_then(|p| p.file_name().map(|f| f.to_string_lossy().to_string()))
+        .and_then(|s| s.parse().ok())
+        .unwrap_or(0)
+}
+
+/// user+system CPU ticks (1/100 s) consumed by thread `tid` of this process
+fn thread_cpu_ticks(tid: u64) -> Option<u64> {
+    let s = std::fs::read_to_string(format!("/proc/self/task/{tid}/stat")).ok()?;
+    let rest = &s[s.rfind(')')? + 2..];
+    let f: Vec<&str> = rest.split(' ').collect();
+    // fields after the command: state is index 0, utime index 11, stime index 12
+    let ut: u64 = f.get(11)?.parse().ok()?;
+    let st: u64 = f.get(12)?.parse().ok()?;
+    Some(ut + st)
 }
 
 impl Watchdog {
     pub fn new(workers: usize, limit_s: u64) -> Arc<Watchdog> {
         Arc::new(Watchdog {
             slots: (0..workers).map(|_| Mutex::new(Slot::default())).collect(),
+            epochs: (0..workers).map(|_| AtomicU64::new(0)).collect(),
             limit_s: AtomicU64::new(limit_s),
             stop: AtomicBool::new(false),
         })
@@ -156,19 +180,22 @@ impl Watchdog {
     pub fn enter(&self, w: usize, prop: &str, label: &str, replay_json: impl FnOnce() -> String) {
         let mut s = self.slots[w].lock().unwrap();
         s.active = true;
-        s.since = Some(Instant::now());
         s.prop = prop.to_string();
         s.label = label.to_string();
         s.replay_json = replay_json();
+        if s.tid == 0 {
+            s.tid = thread_id();
+        }
+        self.epochs[w].fetch_add(1, Ordering::SeqCst);
     }
     pub fn touch(&self, w: usize) {
-        let mut s = self.slots[w].lock().unwrap();
-        s.since = Some(Instant::now());
+        self.epochs[w].fetch_add(1, Ordering::Relaxed);
     }
     pub fn leave(&self, w: usize) {
         let mut s = self.slots[w].lock().unwrap();
         s.active = false;
         s.replay_json.clear();
+        self.epochs[w].fetch_add(1, Ordering::SeqCst);
     }
 }
 
@@ -298,19 +325,37 @@ pub fn start_watchdog(
 ) {
     let wd = Watchdog::new(workers.max(1) + 1, limit_s);
     let _ = WD.set(wd.clone());
-    std::thread::spawn(move || loop {
-        std::thread::sleep(std::time::Duration::from_millis(500));
-        if wd.stop.load(Ordering::SeqCst) {
-            return;
-        }
-        let lim = wd.limit_s.load(Ordering::SeqCst);
-        for s in wd.slots.iter() {
-            let s = s.lock().unwrap();
-            if s.active {
-                if let Some(t) = s.since {
-                    if t.elapsed().as_secs() >= lim {
-                        on_timeout(&s.prop, &s.label, &s.replay_json);
-                    }
+    std::thread::spawn(move || {
+        let n = wd.slots.len();
+        // per slot: (epoch seen, cpu ticks at that epoch, wall instant at that epoch)
+        let mut seen: Vec<(u64, Option<u64>, Instant)> = vec![(u64::MAX, None, Instant::now()); n];
+        loop {
+            std::thread::sleep(std::time::Duration::from_millis(500));
+            if wd.stop.load(Ordering::SeqCst) {
+                return;
+            }
+            let lim = wd.limit_s.load(Ordering::SeqCst);
+            for i in 0..n {
+                let e = wd.epochs[i].load(Ordering::SeqCst);
+                let s = wd.slots[i].lock().unwrap();
+                if !s.active {
+                    seen[i].0 = u64::MAX;
+                    continue;
+                }
+                let cpu = thread_cpu_ticks(s.tid);
+                if seen[i].0 != e {
+                    seen[i] = (e, cpu, Instant::now());
+                    continue;
+                }
+                // same call as at the last sample: how much CPU has it burnt since?
+                let burnt_s = match (cpu, seen[i].1) {
+                    (Some(now), Some(then)) => now.saturating_sub(then) / 100,
+                    _ => 0,
+                };
+                // wall-clock backstop only if CPU accounting is unavailable
+                let wall_s = seen[i].2.elapsed().as_secs();
+                if burnt_s >= lim || (cpu.is_none() && wall_s >= lim * 20) {
+                    on_timeout(&s.prop, &s.label, &s.replay_json);
                 }
             }
         }
